@@ -74,6 +74,11 @@ pub struct Case {
     /// packet goes out with a substituted re-use label
     #[serde(default)]
     pub prime_same_label: bool,
+    /// 1: a complete packet with ANOTHER label is sent first and, after the extension-bearing PDU
+    /// has been delivered, a plain packet with that other label follows and must keep its label;
+    /// 2: the follow-up packet carries the extension PDU's own label
+    #[serde(default)]
+    pub follow_up: u8,
 }
 
 fn chain_strategy(t: Tier) -> BoxedStrategy<Case> {
@@ -90,8 +95,8 @@ fn chain_strategy(t: Tier) -> BoxedStrategy<Case> {
     ];
     let plen = prop_oneof![3 => 0u32..=40, 3 => 40u32..=600, 1 => 600u32..=5000, 1 => 4050u32..=4100];
     let mask = prop_oneof![3 => Just(u32::MAX), 2 => any::<u32>(), 1 => Just(0u32)];
-    bx((lab_any_valid(), pe, (plen, pdu_seed()), any::<u8>(), first, 7u16..=600, prop_oneof![2 => Just(0u16), 1 => 1u16..500], mask, prop_oneof![2 => Just(false), 1 => Just(true)]).prop_map(
-        |(lab, (user_ptype, exts), (len, seed), frag_id, first, cont_buf, storage_extra, mgr_mask, prime_same_label)| Case { lab, user_ptype, pdu: Pdu { len, seed }, exts, frag_id, first, cont_buf, storage_extra, mgr_mask, prime_same_label },
+    bx((lab_any_valid(), pe, (plen, pdu_seed()), any::<u8>(), first, 7u16..=600, prop_oneof![2 => Just(0u16), 1 => 1u16..500], mask, (prop_oneof![2 => Just(false), 1 => Just(true)], prop_oneof![2 => Just(0u8), 1 => Just(1u8), 1 => Just(2u8)])).prop_map(
+        |(lab, (user_ptype, exts), (len, seed), frag_id, first, cont_buf, storage_extra, mgr_mask, (prime_same_label, follow_up))| Case { lab, user_ptype, pdu: Pdu { len, seed }, exts, frag_id, first, cont_buf, storage_extra, mgr_mask, prime_same_label, follow_up },
     ))
 }
 
@@ -122,13 +127,15 @@ fn check_chain(c: &Case, st: &mut Stats) -> Result<(), String> {
         }
         expect_label = l;
     }
-    if c.prime_same_label && c.lab.is_addr() {
+    let other = Lab::Three([0x0F, 0x0E, 0x0D]);
+    let prime_with = if c.follow_up == 1 && c.lab != Lab::ReUse { Some(other) } else if c.prime_same_label && c.lab.is_addr() { Some(c.lab) } else { None };
+    if let Some(pl) = prime_with {
         let mut b = vec![0u8; 32];
-        match call_encap(&mut enc, b"p", 0, 0x0800, c.lab, &mut b) {
+        match call_encap(&mut enc, b"p", 0, 0x0800, pl, &mut b) {
             Ok(Ok(EncapStatus::CompletedPkt(n))) => {
                 let _ = dec.provision_storage(vec![0u8; 8].into_boxed_slice());
                 match call_decap(&mut dec, &b[..n as usize]) {
-                    Ok(Ok((DecapStatus::CompletedPkt(..), _))) => st.class("primed-with-same-label"),
+                    Ok(Ok((DecapStatus::CompletedPkt(..), _))) => st.class(if pl == c.lab { "primed-with-same-label" } else { "primed-with-other-label" }),
                     o => return st.violation("prime-failed", format!("priming packet: {}", show_dec(&o))),
                 }
             }
@@ -247,6 +254,19 @@ fn check_chain(c: &Case, st: &mut Stats) -> Result<(), String> {
             o => return st.violation("receiver-outcome", format!("{}: packet {}/{} ({}) with storage {} -> {}", desc, i + 1, packets.len(), hex(p), storage, show_dec(o))),
         }
     }
+    // follow-up: the label memories of both sides must have moved with the extension-bearing packet
+    if c.follow_up != 0 && c.lab != Lab::ReUse {
+        let fl = if c.follow_up == 1 { other } else { c.lab };
+        let mut b = vec![0u8; 64];
+        let _ = dec.provision_storage(vec![0u8; 16].into_boxed_slice());
+        match call_encap(&mut enc, b"follow", 1, 0x0800, fl, &mut b) {
+            Ok(Ok(EncapStatus::CompletedPkt(n))) => match call_decap(&mut dec, &b[..n as usize]) {
+                Ok(Ok((DecapStatus::CompletedPkt(_, md), _))) if Lab::of(&md.label()) == fl => st.class("follow-up-packet"),
+                o => return st.violation("follow-up-mis-attributed", format!("{}: the following plain packet sent with {:?} (wire {}) -> {}", desc, fl, hex(&b[..n as usize]), show_dec(&o))),
+            },
+            o => return st.violation("follow-up-failed", format!("{}: follow-up encap: {:?}", desc, o.map_err(|p| p.0))),
+        }
+    }
     Ok(())
 }
 
@@ -315,7 +335,7 @@ pub fn property() -> Property {
                 fuzz_decode: Some(crate::fuzzdec::c13_case),
                 strategy: chain_strategy,
                 check: check_chain,
-                required_classes: &["fragmented", "complete", "final-mandatory", "storage==pdu", "receiver-does-not-know-a-mandatory-id", "receiver-knows-all", "primed-with-same-label"],
+                required_classes: &["fragmented", "complete", "final-mandatory", "storage==pdu", "receiver-does-not-know-a-mandatory-id", "receiver-knows-all", "primed-with-same-label", "primed-with-other-label", "follow-up-packet"],
             }),
             Box::new(GenPart {
                 name: "undecodable-combinations",
